@@ -132,6 +132,15 @@ impl Answer {
     ///
     /// </div>
     ///
+    /// If the answer does not fit into the target, or exceeds the push limit
+    /// of the builder, the records that fit are kept and the TC (truncated)
+    /// flag is set.
+    ///
+    /// # Panics
+    ///
+    /// Panics if `message` does not have exactly one question or if the
+    /// question does not fit into the target.
+    ///
     /// See also: [`MessageBuilder::start_answer`]
     pub fn to_message<RequestOctets: Octets, Target: Composer>(
         &self,
@@ -147,73 +156,109 @@ impl Answer {
             builder.header_mut().set_aa(true);
         }
 
+        // If a record does not fit into the target (or exceeds its push
+        // limit), stop adding records and flag the response as truncated
+        // rather than panic: whether an answer fits depends on the zone
+        // content and the transport, not on the caller.
+        let mut truncated = false;
+
         match self.content {
             AnswerContent::Data(ref answer) => {
                 for item in answer.data() {
-                    // TODO: This will panic if too many answers were given,
-                    // rather than give the caller a way to push the rest into
-                    // another message.
-                    builder
+                    if builder
                         .push((qname, qclass, answer.ttl(), item))
-                        .unwrap();
+                        .is_err()
+                    {
+                        truncated = true;
+                        break;
+                    }
                 }
             }
-            AnswerContent::Cname(ref cname) => builder
-                .push((qname, qclass, cname.ttl(), cname.data()))
-                .unwrap(),
+            AnswerContent::Cname(ref cname) => {
+                if builder
+                    .push((qname, qclass, cname.ttl(), cname.data()))
+                    .is_err()
+                {
+                    truncated = true;
+                }
+            }
             AnswerContent::NoData => {}
         }
 
         let mut builder = builder.authority();
-        if let Some(authority) = self.authority.as_ref() {
+        if let Some(authority) =
+            self.authority.as_ref().filter(|_| !truncated)
+        {
             if let Some(soa) = authority.soa.as_ref() {
-                builder
+                if builder
                     .push((
                         authority.owner.clone(),
                         qclass,
                         soa.ttl(),
                         soa.data(),
                     ))
-                    .unwrap();
+                    .is_err()
+                {
+                    truncated = true;
+                }
             }
-            if let Some(ns) = authority.ns.as_ref() {
+            if let Some(ns) = authority.ns.as_ref().filter(|_| !truncated) {
                 for item in ns.data() {
-                    builder
+                    if builder
                         .push((
                             authority.owner.clone(),
                             qclass,
                             ns.ttl(),
                             item,
                         ))
-                        .unwrap()
+                        .is_err()
+                    {
+                        truncated = true;
+                        break;
+                    }
                 }
             }
-            if let Some(ref ds) = authority.ds {
+            if let Some(ds) = authority.ds.as_ref().filter(|_| !truncated) {
                 for item in ds.data() {
-                    builder
+                    if builder
                         .push((
                             authority.owner.clone(),
                             qclass,
                             ds.ttl(),
                             item,
                         ))
-                        .unwrap()
+                        .is_err()
+                    {
+                        truncated = true;
+                        break;
+                    }
                 }
             }
         }
 
         let mut builder = builder.additional();
 
-        if let Some(additional) = self.additional.as_ref() {
+        if let Some(additional) =
+            self.additional.as_ref().filter(|_| !truncated)
+        {
             for item in &additional.required {
-                builder.push(item).unwrap();
-            }
-
-            for item in &additional.discardable {
                 if builder.push(item).is_err() {
+                    truncated = true;
                     break;
                 }
             }
+
+            if !truncated {
+                for item in &additional.discardable {
+                    if builder.push(item).is_err() {
+                        break;
+                    }
+                }
+            }
+        }
+
+        if truncated {
+            builder.header_mut().set_tc(true);
         }
 
         builder
